@@ -23,7 +23,21 @@ TRun == /\ l <= Len(Trc) /\ Ev.e = "Run" /\ l' = l + 1
               /\ Chk("a byte that is neither printable ASCII nor \\n \\r \\t reaches the terminal",
                      (o.mode = "print" /\ ~o.dry) \/ \A i \in 1..Len(Ev.out) : Printable(Ev.out[i]))
               /\ Chk("exit status", (Ev.code # 0) = Fails(Ev.members, o, Ev.filters))
-TSpec == TInit /\ [][TRun]_l
+(* Parse{cmd, help, members, out, code}: an arbitrary command word (letters, digits, '=', '-').  The tool prints
+   its usage page (and exits with status 255) exactly when ParseCommand rejects the word; an accepted word in a
+   test / extract / print mode must produce Cli!Output for the options ParseCommand derived from it *)
+TParse == /\ l <= Len(Trc) /\ Ev.e = "Parse" /\ l' = l + 1
+          /\ LET o == ParseCommand(Ev.cmd)
+             IN /\ Chk("usage page iff the command word is rejected", Ev.help = ~o.ok)
+                \* ("xw" and "xw=" name the root directory as the place to extract into: the harness runs unprivileged, every
+                \*  entry fails for lack of permission, and what is printed then is not Cli!Output's business)
+                /\ IF o.ok /\ o.mode \in {"test", "extract", "print"} /\ ~(o.mode = "extract" /\ ~o.dry /\ o.wdir = <<>>)
+                   THEN LET want == Output(Ev.members, o, <<>>)
+                        IN /\ (IF want = Ev.out THEN TRUE
+                               ELSE PrintT(<<"MISMATCH", "stdout differs at byte", FirstDiff(want, Ev.out), "line", l>>) /\ PrintT(<<"WANT", want>>) /\ FALSE)
+                           /\ Chk("exit status", (Ev.code # 0) = Fails(Ev.members, o, <<>>))
+                   ELSE TRUE
+TSpec == TInit /\ [][TRun \/ TParse]_l
 Accepted == LET dd == TLCGet("stats").diameter - 1
             IN IF dd = Len(Trc) THEN TRUE ELSE PrintT(<<"REJECTED_AT_LINE", dd + 1>>) /\ FALSE
 ========================================================================================
